@@ -145,3 +145,8 @@ def run(ctx):
         s0 = f.j["inputs"][0]
         ctx.ob("R10.5", "%s.&mut self" % m.split("::")[-1], s0.startswith("&") and "mut popen::Popen" in s0, f.loc(0),
                "%s receiver type %s (exclusive borrow excludes a concurrent signal)" % (m, s0))
+
+
+def run_thorough(ctx):
+    # A8: clauses enforced by the type system itself, witnessed by compile_fail doctests with compiling twins
+    ctx.witness("R10.5", ['SignalVsWait', 'WaitNeedsMut'])
